@@ -28,10 +28,10 @@ def run(ctx):
     q = ctx.quick()
     import concurrent.futures as cf
     # unbounded file length (Apalache, inductive invariant of the round-robin core), in the background while the rest runs
-    bg = cf.ThreadPoolExecutor(max_workers=1)
+    bg = cf.ThreadPoolExecutor(max_workers=2)
     induction = bg.submit(P.order_induction, ctx, [(2, 1), (1, 1), (2, 0)] if q else [(2, 1), (1, 1), (2, 0), (2, 2), (3, 0), (4, 0)])
     # ... and the hook-level Model refines that core (TLC), so the unbounded argument is about the same design
-    P.order_refinement(ctx, [(1, 1), (2, 0), (2, 1)] if q else [(1, 1), (2, 0), (2, 1), (2, 2), (3, 0), (3, 1), (3, 2), (4, 0), (4, 1), (4, 3), (11, 0)])
+    refinement = bg.submit(P.order_refinement, ctx, [(1, 1), (2, 0), (2, 1)] if q else [(1, 1), (2, 0), (2, 1), (2, 2), (3, 0), (3, 1), (3, 2), (4, 0), (4, 1), (4, 3), (11, 0)])
     P.model_check(ctx, ["Pbf_nostop.cfg"] if q else ["Pbf_nostop.cfg", "Pbf_nostop_big.cfg"])
     # S -> C : forced schedules
     forced = P.gen_forced(ctx, 150 if q else 8000)
@@ -68,6 +68,11 @@ def run(ctx):
     ctx.tick("race_runs")
     big_blocks(ctx)
     induction.result()
+    rf = refinement.result()
+    ctx.states += rf["states"]
+    ctx.transitions += rf["transitions"]
+    ctx.tlc_runs += rf["tlc_runs"]
+    ctx.extra["order_refinement"] = rf["extra"]
     bg.shutdown()
     ctx.tick("order_induction")
     ctx.rule = ("evaluations = runs of the real scanner (forced TLC behaviours + random-walk schedules + jitter/-race runs); "
